@@ -132,11 +132,6 @@ deriving DecidableEq, Repr
 /-- "Speex   " -/
 def magic : Bytes := [0x53, 0x70, 0x65, 0x65, 0x78, 0x20, 0x20, 0x20]
 
-/-- `cdata.uint_le(data[a:a+4])` / `cdata.int_le`: struct.error unless the slice has four bytes -/
-def u32At (pk : Bytes) (a : Nat) : Except PyErr Bytes :=
-  let s := readAt pk a 4
-  if s.length ≠ 4 then .error .struct_ else .ok s
-
 def init (f : Bytes) : Except PyErr Info :=
   match findHeader magic f with
   | .error e => .error e
@@ -144,19 +139,14 @@ def init (f : Bytes) : Except PyErr Info :=
     if !page.first then .error .mutagen
     else
       let pk := page.packets.headD []
-      match u32At pk 36 with
-      | .error e => .error e
-      | .ok rate =>
-        if ofLE rate = 0 then .error .mutagen
+      if pk.length < 56 then .error .mutagen            -- "truncated ID header"
+      else
+        -- cdata.uint_le(packet[36:40]), cdata.uint_le(packet[48:52]), cdata.int_le(packet[52:56])
+        let rate := ofLE (readAt pk 36 4)
+        if rate = 0 then .error .mutagen
         else
-          match u32At pk 48 with
-          | .error e => .error e
-          | .ok channels =>
-            match u32At pk 52 with
-            | .error e => .error e
-            | .ok br =>
-              .ok { sampleRate := ofLE rate, channels := ofLE channels, bitrate := max 0 (ofSignedLE br), serial := page.serial,
-                    length := .int 0 }
+          .ok { sampleRate := rate, channels := ofLE (readAt pk 48 4), bitrate := max 0 (ofSignedLE (readAt pk 52 4)),
+                serial := page.serial, length := .int 0 }
 
 def post (f : Bytes) (i : Info) : Except PyErr Info :=
   match findLast f i.serial with
@@ -254,10 +244,11 @@ def init (f : Bytes) : Except PyErr Info :=
   | .error e => .error e
   | .ok page =>
     let pk := page.packets.headD []
-    -- struct.unpack(">BBH4s", packet[5:13]): struct.error on a short packet
+    if pk.length < 13 then .error .mutagen               -- "truncated ID header"
+    else
+    -- struct.unpack(">BBH4s", packet[5:13])
     let s := readAt pk 5 8
-    if s.length ≠ 8 then .error .struct_
-    else if readAt s 4 4 ≠ [0x66, 0x4C, 0x61, 0x43] then .error .mutagen
+    if readAt s 4 4 ≠ [0x66, 0x4C, 0x61, 0x43] then .error .mutagen
     else if ¬ (ofBE (readAt s 0 1) = 1 ∧ ofBE (readAt s 1 1) = 0) then .error .mutagen
     else
       -- FLACStreamInfo(BytesIO(packet[17:])): `load` on what `read()` returns
